@@ -153,6 +153,7 @@ func genOp(table []string) *rapid.Generator[opSpec] {
 			op.Iface = rapid.SampledFrom([]int{0, 0, 0, 1}).Draw(t, "iface")
 			if kind == "put" || kind == "putnew" || kind == "push" {
 				op.TTL = rapid.SampledFrom([]int{0, 3600}).Draw(t, "ttl")
+				op.Raw = rapid.IntRange(0, 3).Draw(t, "raw") == 0
 			}
 		}
 		return op
